@@ -67,12 +67,44 @@ def _slicing_general(ctx):
     ctx.ob("L6", dec, "SlicingGeneral decodes through the realised Slicing", got == want, "" if got == want else f"returns `{got[:160]}`", inst="slicing-decode")
 
 
+def _padded_general(ctx):
+    """PaddedGeneral._parse (velocity-zone table): `count` slots are parsed and exactly those the predicate rejects are dropped,
+    wherever they sit (an unused slot before a used one must not be listed)"""
+    fn = ctx.fn("smpl_extract/util/constructs.py", "PaddedGeneral._parse", "L6")
+    prs = [p for p in run_paths(ctx, fn, rule="L6") if p.end == "return"]
+    want = "(Filter(self.predicate,Array(evaluate(self.count,context),self.subcon)))._parse(stream,context,path)"
+    ok = bool(prs) and all(p.ret is not None and p.ret.key() == want for p in prs)
+    det = ""
+    if not ok:
+        # the same selection written as a comprehension over the parsed array
+        from .sem import path_return_ast
+        ok2 = bool(prs)
+        for p in prs:
+            e = path_return_ast(p)
+            good = isinstance(e, ast.ListComp) and len(e.generators) == 1 and isinstance(e.generators[0].target, ast.Name) and isinstance(e.elt, ast.Name) \
+                and e.elt.id == e.generators[0].target.id and len(e.generators[0].ifs) == 1 \
+                and evaluator(ctx, fn, {}).ev(e.generators[0].iter).key() == "(Array(evaluate(self.count,context),self.subcon))._parse(stream,context,path)" \
+                and norm(e.generators[0].ifs[0]) == f"self.predicate({e.elt.id}, context)"
+            ok2 = ok2 and good
+        ok = ok2
+        det = "" if ok else f"returns {[p.ret.key() if p.ret is not None else None for p in prs]}"[:300]
+    ctx.ob("L6", fn, "padded tables: every slot is parsed and exactly the slots the predicate rejects are dropped (at any position)", ok, det, inst="PaddedGeneral._parse")
+    init = ctx.fn("smpl_extract/util/constructs.py", "PaddedGeneral.__init__", "L6")
+    from .sem import straightline_ex, canon_ast
+    sl = straightline_ex([st for st in init.body])
+    pa = [a.arg for a in init.args.args]
+    ok = len(pa) >= 5 and canon_ast(sl["env"].get("self.count", ast.Constant(value=None))) == pa[1] and canon_ast(sl["env"].get("self.pattern", ast.Constant(value=None))) == pa[3] \
+        and canon_ast(sl["env"].get("self.predicate", ast.Constant(value=None))) == f"{pa[4]} or self._default_compare"
+    ctx.ob("L6", init, "padded tables keep the count, pattern and predicate they are declared with", ok, "", inst="PaddedGeneral.__init__")
+
+
 def rule_L6(ctx):
     """header values flow into the displayed dataclasses field by field"""
     L = Layouts(ctx)
     prog = ctx.prog
     seen = 0
     _slicing_general(ctx)
+    _padded_general(ctx)
     for m in prog.modules.values():
         for c in ast.walk(m.tree):
             if isinstance(c, ast.Call) and isinstance(c.func, ast.Name) and c.func.id == "get_common_field_args" and len(c.args) == 2:
